@@ -31,11 +31,17 @@ ASSUMPTIONS = [
     "budget (always true for the default 0); the bootstrap rule of min_competing > 0 stops evaluations by design",
     "the median rule is modelled WITH the repair fixes/F16_median_rung_lag.patch (see known_findings.json while it is not applied)",
 ]
-RULE = ("protocol streams: stopper parameters from the grid of the property's quantifier, 1..6 evaluations with learning curves "
-        "from 5 families (monotone, crossing, constant, noisy, with failures) on a dyadic grid, a random or exhaustive "
-        "interleaving of the evaluations' record()/stopped() operations; free stream: arbitrary budgets and operations after "
-        "a stop (model fidelity only). non-trivial = at least one evaluation is stopped early at a decision point and at "
-        "least one is promoted past a decision point with >= 2 competitors")
+RULE = ("*_protocol: stopper parameters from the grid of the property's quantifier (max_steps 4/9/27, min_steps, rf 2/3/4, "
+        "interval 1/2/3, min_competing 0..3, epsilon default/0/dyadic, min_fully_completed, min_early_stopping_rate), 1..6 "
+        "evaluations with learning curves from 5 families (monotone, crossing, constant = exact ties, noisy, plateau; with and "
+        "without failures) on a dyadic grid, 6 schedule styles (sequential, round robin, random at step or operation "
+        "granularity, staggered, all-record-then-all-ask); *_exhaustive: EVERY interleaving of 3 evaluations x max_steps 4 "
+        "(whole steps, 34650) and of 2 evaluations x max_steps 3 (single operations, 924) per parameter/curve set, one case = "
+        "one block of interleavings sharing a prefix (block_runs in the histogram); search_end_to_end: RandomSearch on the "
+        "SerialEvaluator with an async run-function, operation order as produced by the evaluator; free_ops: arbitrary "
+        "budgets and operations after a stop (model fidelity only, no oracle). non-trivial = at least one evaluation is "
+        "stopped early (before max_steps, without failure) and at least one continues past a budget that >= 2 evaluations recorded")
+COQ_DIRS = ()
 
 F_RUN, F_PROTO, F_REF, F_MON = 1601, 1602, 1603, 1604
 KIND = {"idle": 0, "const": 1, "asha": 2, "median_old": 3, "median": 4}
@@ -120,31 +126,7 @@ class Impl:
 
     def metas(self):
         """per job: ({rung: int | None}, completed code 0/1/2)"""
-        from numbers import Number
-
-        out = []
-        for rj in self.jobs:
-            if rj is None:
-                out.append(({}, 0))
-                continue
-            md = self.st.load_job(rj.id)["metadata"]
-            rungs, comp = {}, 0
-            for k, v in md.items():
-                if k == "_completed":
-                    comp = 2 if v else 1
-                elif k.startswith("_completed_rung_"):
-                    r = int(k[len("_completed_rung_"):])
-                    if isinstance(v, Number):
-                        q = Fraction(float(v)) * self.D
-                        if q.denominator != 1:
-                            raise ValueError("stored value %r is not on the case's grid" % (v,))
-                        rungs[r] = int(q)
-                    else:
-                        rungs[r] = None
-                else:
-                    raise ValueError("unexpected metadata key %r" % (k,))
-            out.append((rungs, comp))
-        return out
+        return [({}, 0) if rj is None else read_meta(self.st.load_job(rj.id)["metadata"], self.D) for rj in self.jobs]
 
 
 def run_protocol(case):
@@ -207,6 +189,84 @@ def run_free(case):
             outs.append(im.stopped(o[1]))
         metas.append(im.metas())
     return ops, outs, metas
+
+
+def read_meta(md, D, strict=True):
+    """storage metadata dict of one job -> ({rung: int | None}, completed code)"""
+    from numbers import Number
+
+    rungs, comp = {}, 0
+    for k, v in md.items():
+        if k == "_completed":
+            comp = 2 if v else 1
+        elif k.startswith("_completed_rung_"):
+            r = int(k[len("_completed_rung_"):])
+            if isinstance(v, Number):
+                q = Fraction(float(v)) * D
+                if q.denominator != 1:
+                    raise ValueError("stored value %r is not on the case's grid" % (v,))
+                rungs[r] = int(q)
+            else:
+                rungs[r] = None
+        elif strict:
+            raise ValueError("unexpected metadata key %r" % (k,))
+    return rungs, comp
+
+
+def run_search(case):
+    """End to end: a RandomSearch on the SerialEvaluator (asyncio tasks, num_workers of them in flight) whose
+    run-function follows the documented loop record()/stopped() and yields to the other evaluations where the case
+    says so.  The order of operations is whatever the evaluator produces; it is logged from inside the run-function."""
+    import asyncio
+    import tempfile
+
+    from deephyper.evaluator import Evaluator
+    from deephyper.hpo import HpProblem, RandomSearch
+
+    scale, D = 2 ** case.get("scale", 0), denom(case)
+    curves, T, yld = case["curves"], case["max_steps"], case.get("yield", "rs")
+    ops, outs, snaps = [], [], []
+
+    def snapshot(job):
+        st = job.storage
+        sid = job.id.split(".")[0]
+        ids = sorted(st.load_all_job_ids(sid), key=lambda x: int(x.split(".")[-1]))
+        snaps.append([read_meta(st.load_job(i)["metadata"], D, strict=False) for i in ids])
+
+    async def run(job):
+        k = int(job.id.split(".")[-1])
+        c = curves[k % len(curves)]
+        b = 0
+        for b in range(1, T + 4):
+            z = c[min(b - 1, len(c) - 1)]
+            job.record(b, "F" if z is None else z / scale)
+            ops.append(["r", k, b, z])
+            outs.append(None)
+            snapshot(job)
+            if "r" in yld:
+                await asyncio.sleep(0)
+            o = bool(job.stopped())
+            ops.append(["s", k])
+            outs.append(o)
+            snapshot(job)
+            if "s" in yld:
+                await asyncio.sleep(0)
+            if o:
+                break
+        return {"objective": job.objective, "metadata": {"budget": b}}
+
+    problem = HpProblem()
+    problem.add_hyperparameter((0.0, 1.0), "x")
+    with tempfile.TemporaryDirectory(prefix="vp_c16_") as d:
+        ev = Evaluator.create(run, method="serial", method_kwargs={"num_workers": case.get("num_workers", 1)})
+        try:
+            search = RandomSearch(problem, ev, random_state=case.get("seed", 0), log_dir=d, stopper=make_stopper(case))
+            search.search(max_evals=case.get("max_evals", 4))
+        finally:
+            ev.close()
+    n = max([len(sn) for sn in snaps] + [1 + max([o[1] for o in ops] + [0])])
+    metas = [sn + [({}, 0)] * (n - len(sn)) for sn in snaps]
+    return n, ops, outs, metas
 
 
 # ---------------------------------------------------------------- model side
@@ -326,6 +386,14 @@ def judge(case, ops, outs, metas, oracle=True):
 def check_proto(case):
     ops, outs, metas = run_protocol(case)
     return judge(case, ops, outs, metas, oracle=True)
+
+
+def check_search(case):
+    n, ops, outs, metas = run_search(case)
+    c = dict(case, njobs=n)
+    r = judge(c, ops, outs, metas, oracle=True)
+    r["desc"] = r["desc"] + ["num_workers=%d" % case.get("num_workers", 1), "yield=%s" % (case.get("yield", "rs") or "none"), "evaluations=%d" % n]
+    return r
 
 
 def check_free(case):
@@ -480,7 +548,7 @@ def gen_exhaustive(stopper, tier_sets):
         if tier == "search":
             return
         for prm in tier_sets[tier]:
-            for fam, curves in EXH_CURVES[: (4 if tier == "thorough" else prm.get("_ncurves", 2))]:
+            for fam, curves in (EXH_CURVES if tier == "thorough" else [EXH_CURVES[i] for i in prm.get("_curves", [0])]):
                 base = dict(stopper=stopper, scale=0, eps=prm.get("eps", "default"), family=fam, lazy=False, drain=False)
                 base.update({k: v for k, v in prm.items() if not k.startswith("_")})
                 for pre in itertools.product(range(3), repeat=4):
@@ -526,13 +594,14 @@ def check_any(case):
 
 
 EXH_ASHA = {
-    "quick": [dict(rf=2, min_steps=1, _ncurves=2), dict(rf=3, min_steps=2, eps=[0, 0], _ncurves=1)],
-    "thorough": [dict(rf=rf, min_steps=m, mesr=e, min_full=(1 if (rf + m + e) % 3 == 0 else 0)) for rf in (2, 3, 4) for m in (1, 2) for e in (0, 1)],
+    "quick": [dict(rf=2, min_steps=1, _curves=[2]), dict(rf=3, min_steps=2, eps=[0, 0], _curves=[1])],
+    "thorough": [dict(rf=rf, min_steps=m, mesr=e, min_full=(1 if (rf + m + e) % 3 == 0 else 0), eps=("default" if (rf + m) % 2 else [0, 0]))
+                 for rf in (2, 3, 4) for m in (1, 2) for e in (0, 1)],
 }
 EXH_MEDIAN = {
-    "quick": [dict(min_comp=0, interval=1, min_steps=1, _ncurves=1), dict(min_comp=2, interval=1, min_steps=1, _ncurves=1),
-              dict(min_comp=3, interval=2, min_steps=1, _ncurves=1)],
-    "thorough": [dict(min_comp=mc, interval=iv, min_steps=(2 if (mc + iv) % 4 == 0 else 1)) for mc in (0, 1, 2, 3) for iv in (1, 2, 3)],
+    "quick": [dict(min_comp=2, interval=1, min_steps=1, eps=[0, 0], _curves=[1]), dict(min_comp=3, interval=2, min_steps=1, _curves=[2])],
+    "thorough": [dict(min_comp=mc, interval=iv, min_steps=(2 if (mc + iv) % 4 == 0 else 1), eps=("default" if (mc + iv) % 2 else [0, 0]))
+                 for mc in (0, 1, 2, 3) for iv in (1, 2, 3)],
 }
 
 
@@ -559,6 +628,40 @@ def gen_free(count):
             c.update(njobs=n, ops=ops, lazy=rng.random() < 0.3, family="free")
             yield c
     return gen
+
+
+def gen_search(count):
+    def gen(rng, tier):
+        k = count if tier != "search" else count // 2
+        for i in range(k):
+            stopper = ["asha", "median"][i % 2]
+            c = gen_params(rng, stopper, "search")  # max_steps 4 or 9
+            T = c["max_steps"]
+            fam = FAMILIES[i % len(FAMILIES)]
+            nc = rng.randint(1, 6)
+            curves = [gen_curve(rng, fam, T + 3, j, nc) for j in range(nc)]
+            add_failures(rng, curves, T, (i // len(FAMILIES)) % 3)
+            c.update(family=fam, curves=curves, num_workers=rng.randint(1, 4), max_evals=rng.randint(1, 8),
+                     seed=rng.randint(0, 1000), njobs=0)
+            c["yield"] = rng.choice(["rs", "rs", "r", "s", ""])
+            yield c
+    return gen
+
+
+def shrink_search(case):
+    for k, v in (("min_full", 0), ("mesr", 0), ("min_steps", 1), ("eps", [0, 0]), ("interval", 1), ("min_comp", 0)):
+        if k in case and case[k] != v:
+            yield dict(case, **{k: v})
+    if case.get("max_evals", 4) > 1:
+        yield dict(case, max_evals=case["max_evals"] - 1)
+    if case.get("num_workers", 1) > 1:
+        yield dict(case, num_workers=case["num_workers"] - 1)
+    curves = case["curves"]
+    if len(curves) > 1:
+        for j in range(len(curves)):
+            yield dict(case, curves=curves[:j] + curves[j + 1:])
+    if case["max_steps"] > 2:
+        yield dict(case, max_steps=case["max_steps"] - 1)
 
 
 # ---------------------------------------------------------------- shrinkers
@@ -615,7 +718,7 @@ def shrink_free(case):
 # ---------------------------------------------------------------- streams
 def streams(tier):
     th = tier == "thorough"
-    n = 6000 if th else 700
+    n = 6000 if th else 500
     return [
         Stream("asha_protocol", gen_proto("asha", n), check_proto, shrink_proto, timeout=60),
         Stream("median_protocol", gen_proto("median", n), check_proto, shrink_proto, timeout=60),
@@ -624,4 +727,53 @@ def streams(tier):
         Stream("asha_exhaustive", gen_exhaustive("asha", EXH_ASHA), check_any, shrink_block, timeout=300),
         Stream("median_exhaustive", gen_exhaustive("median", EXH_MEDIAN), check_any, shrink_block, timeout=300),
         Stream("free_ops", gen_free(4000 if th else 600), check_free, shrink_free, timeout=60),
+        Stream("search_end_to_end", gen_search(1500 if th else 200), check_search, shrink_search, timeout=120),
     ]
+
+
+# ---------------------------------------------------------------- translator part: constructor defaults
+def facts(repo):
+    """Defaults of the stopper constructors, read from the imported classes of the current tree (value facts,
+    DESIGN 1.2a).  Consumed by DH.C16_Stoppers.LemmasDefaults: with the DEFAULT parameters the stoppers are well-formed
+    and successive halving has min_competing = 0 (so 'best is never stopped' needs no side condition)."""
+    import inspect
+    from fractions import Fraction as Fr
+
+    from .. import srcfacts
+
+    try:
+        from deephyper.stopper import MedianStopper, SuccessiveHalvingStopper
+    except Exception as e:  # pragma: no cover
+        return srcfacts.fail_closed("cannot import the stoppers: %r" % (e,)), {"error": repr(e)}
+
+    want = {
+        "asha": (SuccessiveHalvingStopper, ["min_steps", "reduction_factor", "min_early_stopping_rate", "min_competing", "min_fully_completed", "epsilon"]),
+        "median": (MedianStopper, ["min_steps", "min_competing", "interval_steps", "epsilon"]),
+    }
+    lines, info = [], {}
+    for tag, (cls, names) in want.items():
+        sig = inspect.signature(cls.__init__)
+        for nm in names:
+            prm = sig.parameters.get(nm)
+            if prm is None or prm.default is inspect.Parameter.empty:
+                return srcfacts.fail_closed("%s.__init__ has no default for %s" % (cls.__name__, nm)), {"error": nm}
+            v = prm.default
+            if nm == "epsilon":
+                if isinstance(v, bool) or not isinstance(v, (int, float)) or v != v or v in (float("inf"), float("-inf")):
+                    return srcfacts.fail_closed("%s.epsilon default %r is not a finite number" % (cls.__name__, v)), {"error": nm}
+                fr = Fr(v)
+                den = fr.denominator
+                if den & (den - 1):
+                    return srcfacts.fail_closed("epsilon denominator not a power of two"), {"error": nm}
+                lines.append("Definition %s_default_epsilon_num : Z := %s." % (tag, "(%d)" % fr.numerator if fr.numerator < 0 else fr.numerator))
+                lines.append("Definition %s_default_epsilon_log2den : Z := %d." % (tag, den.bit_length() - 1))
+                info["%s.epsilon" % tag] = repr(v)
+            else:
+                if isinstance(v, bool) or not isinstance(v, int):
+                    if isinstance(v, float) and v == int(v):
+                        v = int(v)
+                    else:
+                        return srcfacts.fail_closed("%s.%s default %r is not an integer" % (cls.__name__, nm, v)), {"error": nm}
+                lines.append("Definition %s_default_%s : Z := %s." % (tag, nm, "(%d)" % v if v < 0 else v))
+                info["%s.%s" % (tag, nm)] = v
+    return "Definition srcfacts_ok := true.\n" + "\n".join(lines) + "\n", info
